@@ -96,8 +96,6 @@ Proof. apply (list_eqb_spec facestat_eqb facestat_eqb_spec); reflexivity. Qed.
 
 (* ---------- RIB: lookups ---------- *)
 Definition routes_find (rs : list route) (face origin : N) : option route := find (same_route face origin) rs.
-Fixpoint rib_routes (t : ribT) (n : name) : list route :=
-  match t with [] => [] | (m, rs) :: t' => if name_eqb m n then rs else rib_routes t' n end.
 (* the route for (prefix, face, origin), if any *)
 Definition rib_find (t : ribT) (n : name) (face origin : N) : option route := routes_find (rib_routes t n) face origin.
 
@@ -330,8 +328,6 @@ Qed.
 (* ---------- FIB next hops: lookups ---------- *)
 Fixpoint nh_find (l : list (N * N)) (face : N) : option N :=
   match l with [] => None | (f, c) :: l' => if f =? face then Some c else nh_find l' face end.
-Fixpoint fib_hops (t : fibT) (n : name) : list (N * N) :=
-  match t with [] => [] | (m, l) :: t' => if name_eqb m n then l else fib_hops t' n end.
 (* cost of the next hop (prefix, face), if any *)
 Definition fib_find (t : fibT) (n : name) (face : N) : option N := nh_find (fib_hops t n) face.
 
@@ -572,4 +568,109 @@ Proof.
   induction t as [|[m x] t IH]; simpl; intros Hnd; [constructor|].
   inversion Hnd as [|k l Hnotin Hnd']; subst. destruct (name_eqb m n); simpl; [exact Hnd'|].
   constructor; [|apply IH; exact Hnd']. intros HI. apply strat_unset_keys in HI. contradiction.
+Qed.
+
+(* ---------- the reference RIB -> FIB synchronisation meets the specification of the FIB after a RIB change ---------- *)
+Lemma hops_same_refl l : hops_same l l = true.
+Proof.
+  unfold hops_same. assert (H : forallb (fun x => existsb (nh_eqb x) l) l = true).
+  { apply forallb_forall. intros x Hx. apply existsb_exists. exists x. split; [exact Hx | apply nh_eqb_spec; reflexivity]. }
+  rewrite H. reflexivity.
+Qed.
+
+Lemma fib_replace_keys t n l k : In k (map fst (fib_replace t n l)) -> k = n \/ In k (map fst t).
+Proof.
+  induction t as [|[m x] t IH]; simpl.
+  - destruct l; simpl; [intros [] | intros [H|[]]; left; auto].
+  - destruct (name_eqb m n) eqn:E.
+    + apply name_eqb_spec in E. subst m. destruct l; simpl; [intros H; right; right; exact H | intros [H|H]; [left; auto | right; right; exact H]].
+    + simpl. intros [H|H]; [right; left; exact H|]. destruct (IH H); [left; assumption | right; right; assumption].
+Qed.
+Lemma fib_replace_nodup t n l : NoDup (map fst t) -> NoDup (map fst (fib_replace t n l)).
+Proof.
+  induction t as [|[m x] t IH]; simpl; intros Hnd.
+  - destruct l; simpl; constructor; [intros [] | constructor].
+  - inversion Hnd as [|k l' Hnotin Hnd']; subst. destruct (name_eqb m n) eqn:E.
+    + destruct l; [exact Hnd' | simpl; constructor; assumption].
+    + simpl. constructor; [|apply IH; exact Hnd'].
+      intros HI. apply fib_replace_keys in HI as [HI|HI]; [subst; rewrite name_eqb_refl in E; discriminate | contradiction].
+Qed.
+Lemma fib_hops_replace_same t n l : NoDup (map fst t) -> fib_hops (fib_replace t n l) n = l.
+Proof.
+  induction t as [|[m x] t IH]; simpl; intros Hnd.
+  - destruct l; simpl; [reflexivity | rewrite name_eqb_refl; reflexivity].
+  - inversion Hnd as [|k l' Hnotin Hnd']; subst. destruct (name_eqb m n) eqn:E.
+    + apply name_eqb_spec in E. subst m. destruct l; [apply fib_hops_notin; exact Hnotin | simpl; rewrite name_eqb_refl; reflexivity].
+    + simpl. rewrite E. apply IH. exact Hnd'.
+Qed.
+Lemma fib_hops_replace_other t n l n' : n' <> n -> fib_hops (fib_replace t n l) n' = fib_hops t n'.
+Proof.
+  intros Hne. induction t as [|[m x] t IH]; simpl.
+  - destruct l; simpl; [reflexivity|]. destruct (name_eqb n n') eqn:E; [apply name_eqb_spec in E; congruence | reflexivity].
+  - destruct (name_eqb m n) eqn:E.
+    + apply name_eqb_spec in E. subst m.
+      assert (E2 : name_eqb n n' = false) by (apply name_eqb_false; congruence).
+      destruct l; simpl; rewrite ?E2; reflexivity.
+    + simpl. destruct (name_eqb m n'); [reflexivity | exact IH].
+Qed.
+
+(* one step of the fold of rib_sync, for any list of entries [es] *)
+Definition sync_step (rib' : ribT) (scope : option name) (acc : fibT) (e : name * list route) : fibT :=
+  if in_scope scope (fst e) then fib_replace acc (fst e) (fib_want rib' (fst e)) else acc.
+
+Lemma sync_fold_nodup rib' scope es : forall f, NoDup (map fst f) -> NoDup (map fst (fold_left (sync_step rib' scope) es f)).
+Proof.
+  induction es as [|e es IH]; intros f Hf; simpl; [exact Hf|].
+  apply IH. unfold sync_step. destruct (in_scope scope (fst e)); [apply fib_replace_nodup; exact Hf | exact Hf].
+Qed.
+Lemma sync_fold_other rib' scope es n : ~ In n (map fst es) -> forall f,
+  fib_hops (fold_left (sync_step rib' scope) es f) n = fib_hops f n.
+Proof.
+  induction es as [|e es IH]; intros Hn f; simpl; [reflexivity|].
+  rewrite IH by (intros HI; apply Hn; right; exact HI).
+  unfold sync_step. destruct (in_scope scope (fst e)); [|reflexivity].
+  apply fib_hops_replace_other. intros E. apply Hn. left. symmetry. exact E.
+Qed.
+Lemma sync_fold_in rib' scope es n : NoDup (map fst es) -> In n (map fst es) -> forall f, NoDup (map fst f) ->
+  fib_hops (fold_left (sync_step rib' scope) es f) n = if in_scope scope n then fib_want rib' n else fib_hops f n.
+Proof.
+  induction es as [|e es IH]; intros Hnd Hin f Hf; simpl in *; [contradiction|].
+  inversion Hnd as [|k l Hnotin Hnd']; subst.
+  destruct Hin as [Hin|Hin].
+  - subst n. rewrite sync_fold_other by exact Hnotin. unfold sync_step.
+    destruct (in_scope scope (fst e)); [apply fib_hops_replace_same; exact Hf | reflexivity].
+  - assert (Hne : n <> fst e) by (intros E; subst; contradiction).
+    rewrite IH; try assumption.
+    + destruct (in_scope scope n); [reflexivity|]. unfold sync_step.
+      destruct (in_scope scope (fst e)); [apply fib_hops_replace_other; exact Hne | reflexivity].
+    + unfold sync_step. destruct (in_scope scope (fst e)); [apply fib_replace_nodup; exact Hf | exact Hf].
+Qed.
+
+Lemma rib_routes_in t n : rib_routes t n <> [] -> In n (map fst t).
+Proof.
+  induction t as [|[m rs] t IH]; simpl; intros H; [contradiction|].
+  destruct (name_eqb m n) eqn:E; [left; apply name_eqb_spec; exact E | right; apply IH; exact H].
+Qed.
+
+Theorem rib_sync_meets_spec rib' scope pre :
+  NoDup (map fst rib') -> NoDup (map fst pre) ->
+  spec_fib_after_rib scope rib' pre (rib_sync rib' scope pre) = true.
+Proof.
+  intros Hr Hp. unfold spec_fib_after_rib. apply forallb_forall. intros n _.
+  change (rib_sync rib' scope pre) with (fold_left (sync_step rib' scope) rib' pre).
+  destruct (in_scope scope n) eqn:Es.
+  - destruct (rib_routes rib' n) eqn:Er.
+    + (* no routes: untouched, or (an entry with an empty route list) cleared *)
+      destruct (in_dec (fun a b => match Bool.bool_dec (name_eqb a b) true with
+                                   | left e => left (proj1 (name_eqb_spec a b) e)
+                                   | right ne => right (fun h => ne (proj2 (name_eqb_spec a b) h)) end) n (map fst rib')) as [Hin|Hnin].
+      * rewrite (sync_fold_in rib' scope rib' n Hr Hin pre Hp), Es. unfold fib_want. rewrite Er. apply orb_true_r.
+      * rewrite (sync_fold_other rib' scope rib' n Hnin). rewrite hops_same_refl. reflexivity.
+    + assert (Hin : In n (map fst rib')) by (apply rib_routes_in; rewrite Er; discriminate).
+      rewrite (sync_fold_in rib' scope rib' n Hr Hin pre Hp), Es. apply hops_same_refl.
+  - destruct (in_dec (fun a b => match Bool.bool_dec (name_eqb a b) true with
+                                 | left e => left (proj1 (name_eqb_spec a b) e)
+                                 | right ne => right (fun h => ne (proj2 (name_eqb_spec a b) h)) end) n (map fst rib')) as [Hin|Hnin].
+    + rewrite (sync_fold_in rib' scope rib' n Hr Hin pre Hp), Es. apply hops_same_refl.
+    + rewrite (sync_fold_other rib' scope rib' n Hnin). apply hops_same_refl.
 Qed.
